@@ -336,6 +336,16 @@ def rule_flags(ctx: Ctx, repo: Repo) -> None:
 def rule_forwarding(ctx: Ctx, repo: Repo) -> None:
     P = "existing_annotation_strategy"
     sites = call_sites(repo, lambda c: P in c.params)
+    # `functools.partial(f, ..., existing_annotation_strategy=x)` binds the parameter like a call of f does
+    for fi_p in repo.all_functions():
+        for c_p in calls_in(fi_p.node):
+            if (dotted(c_p.func) or "").split(".")[-1] == "partial" and c_p.args:
+                syn = ast.Call(func=c_p.args[0], args=list(c_p.args[1:]), keywords=list(c_p.keywords))
+                ast.copy_location(syn, c_p)
+                ast.fix_missing_locations(syn)
+                callee_p = repo.resolve_callee(fi_p, syn)
+                if callee_p is not None and P in callee_p.params and any(k.arg == P for k in c_p.keywords):
+                    sites.append((fi_p, syn, callee_p))
     n = 0
     for caller, call, callee in sites:
         if P not in caller.params and caller.qualname != "get_stub":
